@@ -79,6 +79,15 @@ Print Assumptions C10mk_unescape_comment_fuel.
 Example C10mk_unescape_comment_newline : unescape_comment [97; 10; 98] = Panic.
 Proof. vm_compute. reflexivity. Qed.
 
+(* the three rules in the documentation of unescapeComment, pinned:
+   "\#" is an escaped '#';  after an even number of backslashes the '#' starts the
+   comment;  "[#" does not start a comment *)
+Example C10mk_comment_rules :
+  unescape_comment [97; 92; 35; 98] = Ok ([97; 35; 98], []) /\
+  unescape_comment [97; 92; 92; 35; 98] = Ok ([97; 92; 92], [35; 98]) /\
+  unescape_comment [91; 35; 93; 32; 35; 99] = Ok ([91; 35; 93; 32], [35; 99]).
+Proof. vm_compute. repeat split; reflexivity. Qed.
+
 (* split: main ++ spaceBeforeComment is the (unescaped) text before the comment,
    the space consists of blanks, main has no trailing blank, and the comment with
    its '#' ends the text *)
